@@ -109,6 +109,9 @@ type cas struct {
 	clientAddr *kmsg.Addr
 	pacKind    string
 	rnd        *vh.Rand
+	// trailing builds raw DER that is appended inside the Ticket SEQUENCE after enc-part. RFC 4120 knows no such element: the
+	// reference judges the request without it (what the KDC sealed), gokrb5 receives it; it must have no influence.
+	trailing func(c *cas) []byte
 }
 
 type defect struct {
@@ -279,6 +282,31 @@ func catalogue() []defect {
 			c.m.Tkt.CAddr = nil
 		}},
 		{"replay", "reject", func(c *cas) { c.replay = true }},
+		// a plaintext EncTicketPart smuggled into the ticket on the wire, carrying the optional fields the sealed part lacks
+		{"tkt-unsealed-part-appended-supplying-caddr", "reject", func(c *cas) {
+			// rejecting when RequireHostAddr is on: the sealed ticket has no addresses (the reference decides)
+			c.m.Tkt.CAddr = nil
+			c.trailing = func(c *cas) []byte {
+				p := c.m.Tkt
+				p.CRealm, p.CName = "EVIL.REALM", kmsg.N(1, "administrator")
+				p.CAddr = []kmsg.Addr{addrA, addrB}
+				if c.clientAddr != nil {
+					p.CAddr = append(p.CAddr, *c.clientAddr)
+				}
+				return p.SeqDER()
+			}
+		}},
+		{"n-tkt-unsealed-part-appended-with-future-starttime", "neutral", func(c *cas) {
+			c.m.Tkt.StartTime, c.m.Tkt.RenewTill = nil, nil
+			c.trailing = func(c *cas) []byte {
+				p := c.m.Tkt
+				p.CRealm, p.CName = "EVIL.REALM", kmsg.N(1, "administrator")
+				p.StartTime = kmsg.T(c.now0.Add(48 * time.Hour))
+				p.EndTime = c.now0.Add(96 * time.Hour)
+				p.RenewTill = kmsg.T(c.now0.Add(200 * time.Hour))
+				return p.SeqDER()
+			}
+		}},
 		{"pac-bitflip", "reject", func(c *cas) { c.pacKind = "bad" }},
 		{"pac-wrong-key", "reject", func(c *cas) { c.pacKind = "wrongkey" }},
 		// ---- neutral
@@ -501,6 +529,34 @@ func runCase(t *testing.T, r *vh.Run, ck string, c *cas, gkt *keytab.Keytab, kin
 		r.Inconclusive("reference cannot mint " + ck + ": " + err.Error())
 		return
 	}
+	reqSealed := req // what the reference judges
+	if c.trailing != nil {
+		// same PRNG-independent content: only the ticket gains an element (Build draws confounders from c.m.Conf, so mint the
+		// trailing variant from a copy whose confounder stream is replayed)
+		m2 := c.m
+		m2.TktTrailing = c.trailing(c)
+		var drawn [][]byte
+		orig := c.m.Conf
+		i := 0
+		c.m.Conf = func(n int) []byte { b := orig(n); drawn = append(drawn, b); return b }
+		reqSealed, err = c.m.Build()
+		if err != nil {
+			r.Inconclusive("reference cannot mint " + ck + ": " + err.Error())
+			return
+		}
+		m2.Conf = func(n int) []byte {
+			if i < len(drawn) && len(drawn[i]) == n {
+				i++
+				return drawn[i-1]
+			}
+			return orig(n)
+		}
+		if req, err = m2.Build(); err != nil {
+			r.Inconclusive("reference cannot mint " + ck + ": " + err.Error())
+			return
+		}
+		c.m.Conf = orig
+	}
 	rs := accept.Settings{Skew: c.cfg.effSkew(), RequireHostAddr: c.cfg.requireAddr, ClientAddr: c.clientAddr, DecodePAC: c.cfg.decodePAC, PACVerify: pac.Verify}
 	opts := []func(*service.Settings){service.RequireHostAddr(c.cfg.requireAddr), service.DecodePAC(c.cfg.decodePAC)}
 	if c.cfg.skew != 0 {
@@ -515,16 +571,16 @@ func runCase(t *testing.T, r *vh.Run, ck string, c *cas, gkt *keytab.Keytab, kin
 	}
 	now := c.now0.Add(c.nowExtra)
 	replaySet := map[string]bool{}
-	want := accept.Accept(req, c.kt, rs, now, replaySet)
+	want := accept.Accept(reqSealed, c.kt, rs, now, replaySet)
 	if c.replay {
-		want = accept.Accept(req, c.kt, rs, now, replaySet) // verdict on the second presentation
+		want = accept.Accept(reqSealed, c.kt, rs, now, replaySet) // verdict on the second presentation
 	}
 	// catalogue self-check for single defects
 	if kind == "neutral" && !want.Accept && !want.DontCare && validBase(c.cfg) {
 		r.Inconclusive(fmt.Sprintf("catalogue: neutral defect %v rejected by the reference under %s: %v", names, c.cfg, want.Reasons))
 		return
 	}
-	if kind == "reject" && want.Accept && !want.DontCare && names[0] != "caddr-absent" && !strings.HasPrefix(names[0], "pac-") && !strings.HasPrefix(names[0], "caddr-other") {
+	if kind == "reject" && want.Accept && !want.DontCare && names[0] != "caddr-absent" && names[0] != "tkt-unsealed-part-appended-supplying-caddr" && !strings.HasPrefix(names[0], "pac-") && !strings.HasPrefix(names[0], "caddr-other") {
 		r.Inconclusive(fmt.Sprintf("catalogue: rejecting defect %v accepted by the reference under %s", names, c.cfg))
 		return
 	}
@@ -581,6 +637,10 @@ func runCase(t *testing.T, r *vh.Run, ck string, c *cas, gkt *keytab.Keytab, kin
 		if ok {
 			r.Inc("dontcare_gokrb5_accepted")
 		}
+		return
+	}
+	if want.Accept && c.trailing != nil && uerr != nil {
+		r.Inc("observe_ticket_with_appended_element_refused_by_the_decoder")
 		return
 	}
 	if want.Accept {
